@@ -127,10 +127,11 @@ PROPS = {
         "shrink_budget": 0,
     },
     "C09": {
+        "lean_modules": ["Props.Gen09", "Props.GenT09"],
         "groups": [{"name": "C02", "quick": 1200, "thorough": 40000, "workers": 12}],
         "rule": "the same multi-host worlds as C02 (outboxes and reply collections mixing legitimate entries with other-actor activities, other-parent comments, foreign-host authors, missing ids/actors/reply targets, embedded vs referenced, failing fetches; actors and reply targets that are the owner's in another spelling (userinfo, fragment, scheme), under the same path on another host, on the same address under another port, a same-host document claiming the owner's id; actor / inReplyTo written as lists; entries that are no references or no activities at all: null, numbers, nested lists, bare notes; listings continued over several requests); "
                 "compared: per-position classification of every listed entry; predicates on the implementation's output: a listed activity's actor id equals the owner's id, a listed reply's parent id equals the post's id, authors share the post's host (the authority url.Parse reads out of the two ids); non-trivial = at least one child or ancestor is listed; distinct by op content",
-        "trusted": ["as C02"],
+        "trusted": ["as C02", "extract/go2lean14.go and Model/GoPub.lean (translation of the listing filters)"],
         "assumptions": [],
         "lean_modules": ["Props.Gen02", "Props.GenT02"],
         "shrink_budget": 3,
@@ -370,10 +371,10 @@ MANIFEST_TEXT = {
         "technique": "Lean 4 proof (interleaving model, invariant over all reachable states) over facts regenerated from the source by a translator + race-detector stress as validation",
     },
     "C09": {
-        "text": "Lean theorems: an outbox element is delivered as an activity iff construction succeeded, the owner has an id and the activity's resolved actor id equals it; a reply element is delivered as a post iff its resolved inReplyTo id equals the post's id; a post is built only if every resolved author shares its host; listings keep one entry per element in order, failures in place. The FetchUnknown that resolves every actor, reply target and author is tied to client.go by translation (Props/Gen02.lean, Props/GenT02.lean); the filters are tied to pub by differential correspondence on listings over multi-host worlds with impostors; genuineness predicates are evaluated on every implementation output.",
+        "text": "Lean theorems: an outbox element is delivered as an activity iff construction succeeded, the owner has an id and the activity's resolved actor id equals it; a reply element is delivered as a post iff its resolved inReplyTo id equals the post's id; a post is built only if every resolved author shares its host; listings keep one entry per element in order, failures in place. The FetchUnknown that resolves every actor, reply target and author is tied to client.go by translation (Props/Gen02.lean, Props/GenT02.lean); the filters are tied to pub by differential correspondence on listings over multi-host worlds with impostors; genuineness predicates are evaluated on every implementation output.", "Lean theorems: an outbox element is delivered as an activity iff construction succeeded, the owner has an id and the activity's resolved actor id equals it; a reply element is delivered as a post iff its resolved inReplyTo id equals the post's id; a post is built only if every resolved author shares its host; listings keep one entry per element in order, failures in place. Tied to pub twice: the filters themselves - the outbox closure of NewActorFromObject, constructComment of NewPostFromObject, the forged-creators loop, getActors (goroutine fan-out in index order), getPostOrActor, New, NewTangible, the three identifier accessors and the type test at the head of the four constructors - are translated to Lean on every run (extract/go2lean14.go -> Generated/GoListing.lean; the item constructors and FetchUnknown are parameters) and proved equal to the model's for every world and entry, without panic (Props/Gen09.lean), and the theorems are restated about the code as translated (Props/GenT09.lean); and by differential correspondence on listings over multi-host worlds with impostors; genuineness predicates are evaluated on every implementation output.",
         "design_ref": "DESIGN.md §5 C09",
-        "note": "Trusted: as C02.",
-        "technique": "Lean 4 proof (case analysis of the listing filters, positions via the paging theorems) + differential correspondence",
+        "note": "Trusted: as C02; the translator extract/go2lean14.go and its semantics library (Model/GoPub.lean: errors as what errors.Is sees of them, the fan-out over disjoint cells run in index order; Model/GoSlices.lean: nil receivers panic).",
+        "technique": "Lean 4 proof (case analysis of the listing filters, positions via the paging theorems; equivalence of the translated Go filters with the model) + differential correspondence",
     },
     "C03": {
         "text": "Lean theorems for all response byte strings, worlds, budgets and caches: an exchange yields a document iff the status is 200-203, at least one Content-Type line is present, every Content-Type line names a tolerated type, the header block is terminated; a fetch succeeds only along a chain of https hops within the budget whose last response is such a document, source = URL of that response, at most budget+1 requests; every sound cache (any eviction) is transparent: same result as with an empty cache. Tied to jtp.go by differential correspondence on the recognisers and on jtp.Get against a loopback TLS simulator, request log included.",
